@@ -209,6 +209,8 @@ impl Caret {
     fn check_scrolling_on_caret_up(&mut self, buf: &mut Buffer, current_layer: usize, force: bool) {
         if buf.needs_scrolling() || force {
             let last = buf.get_first_editable_line();
+            // scrolling by more than a screen leaves the same blank region
+            self.pos.y = self.pos.y.max(last.saturating_sub(buf.terminal_state.get_height()));
             while self.pos.y < last {
                 buf.scroll_down(current_layer);
                 self.pos.y += 1;
